@@ -275,7 +275,7 @@ def extra_search(rng, seeds, tier):
     return gen_cases(rng, "quick")
 
 
-def shrink(case):
+def _shrink_raw(case):
     pre, k, after = parse(case.line)
     out = []
     for i in range(len(pre)):
@@ -288,4 +288,23 @@ def shrink(case):
     for j in range(len(mid)):
         a2 = [o for o in after if o is not mid[j]]
         out.append(Case("%s|%d|%s" % (fmt_ops(pre), k, fmt_ops(a2)), "shrink"))
+    return out
+
+
+def shrink(case):
+    """Shrink candidates, never drifting INTO a listed finding: a candidate that one of the classifiers
+    accepts although the case being shrunk is outside it would turn a new failure into a known one."""
+    mine = {n for n, f in CLASSIFIERS.items() if f(case, "", "OOB")}
+    if mine:
+        # an unlisted failure on an input of a listed finding means model and implementation differ
+        # there; shrinking blind to the outputs could end on a merely known input: report it as it is
+        return []
+    out = []
+    for c in _shrink_raw(case):
+        try:
+            if any(f(c, "", "OOB") for n, f in CLASSIFIERS.items() if n not in mine):
+                continue
+        except Exception:
+            continue
+        out.append(c)
     return out
